@@ -5,7 +5,8 @@
 From Coq Require Import List ZArith Lia Bool Arith.
 Import ListNotations.
 Require Import Vault Vaultproof Vaultproof2 Vaultproof3 Vaultproof4 Vaultproof5 Row Table Grid Tableabs
-               Tableproof Tableproof2 Tableproof3 Tableproof4 Tableproof5 Tableproof6 Tableproof7 Tableproof8 Tablerefuted.
+               Tableproof Tableproof2 Tableproof3 Tableproof4 Tableproof5 Tableproof6 Tableproof7 Tableproof8 Tablerefuted
+               Coord TableExt TableExtproof TableLive TableLiveproof.
 Open Scope Z_scope.
 
 (* ---- the full statement: after ANY history of the modelled operations on ANY well-formed run-length state,
@@ -176,6 +177,111 @@ Theorem delete_column_pinned_refuted : exists (t : tstate) (x : Z),
   exists t', t_delete_column_pinned x t = Some t' /\ abs_t t' <> g_delete_column x (abs_t t).
 Proof. exact delete_column_pinned_refuted_w. Qed.
 Print Assumptions delete_column_pinned_refuted.
+
+(* ==== second alphabet (TableExt.v): coordinates in every accepted form — str "C4" / "A1:B3" / "C" / "3", tuple, list,
+        int of either sign — resolved by C19's model of the coordinate code (Coord.v); set_column_cells/values; reads
+        with coordinate forms, get_values(coord) with partial areas, get_cells(coord), cells.  A call whose argument
+        does not resolve raises (None). ==== *)
+Theorem C01_second_alphabet_step : forall (t : tstate) (o : top2), WF t -> op_ok2 (twidth t) (theight t) o ->
+  exists t', t_step2 t o = Some t' /\ WF t' /\ g_step2 (abs_t t) o = Some (abs_t t').
+Proof. exact step2_refines. Qed.
+Print Assumptions C01_second_alphabet_step.
+
+(* histories over the SUM of both alphabets (admissibility of a step depends on the current size, hence on the grid run) *)
+Theorem C01_history_both_alphabets : forall (os : list xop) (t : tstate), WF t -> xops_ok (abs_t t) os ->
+  exists t', x_run t os = Some t' /\ WF t' /\ gx_run (abs_t t) os = Some (abs_t t').
+Proof. exact x_history_refines. Qed.
+Print Assumptions C01_history_both_alphabets.
+
+Theorem C01_read_second_alphabet : forall (t : tstate) (q : tread2), WF t -> t_read2 t q = g_read2 (abs_t t) q.
+Proof. exact read2_refines. Qed.
+Print Assumptions C01_read_second_alphabet.
+
+Theorem C01_reads_after_every_history_both_alphabets : forall (os : list xop) (t : tstate) (q : tread2),
+  WF t -> xops_ok (abs_t t) os ->
+  exists t' g', x_run t os = Some t' /\ gx_run (abs_t t) os = Some g' /\ t_read2 t' q = g_read2 g' q
+                /\ forall q1, t_read t' q1 = g_read g' q1.
+Proof. exact reads2_after_history. Qed.
+Print Assumptions C01_reads_after_every_history_both_alphabets.
+
+(* a str coordinate steps exactly like the tuple it parses to, for EVERY string that parses ... *)
+Theorem C01_string_and_tuple_forms_step_alike : forall (t : tstate) (s : list Z) (l : list (option Z)) (cl : nat * cell),
+  convert_coordinates s = Some l ->
+  t_step2 t (XSetCell (CStr s) cl) = t_step2 t (XSetCell (CTup l) cl) /\
+  t_step2 t (XInsertCell (CStr s) cl) = t_step2 t (XInsertCell (CTup l) cl) /\
+  t_step2 t (XDeleteCell (CStr s)) = t_step2 t (XDeleteCell (CTup l)).
+Proof. exact string_form_steps_like_its_tuple. Qed.
+Print Assumptions C01_string_and_tuple_forms_step_alike.
+
+(* ... the written address of (x,y) ("C4") steps like the pair of integers of the first alphabet (with C19's round trip) ... *)
+Theorem C01_written_address_steps_like_integers : forall (t : tstate) (x y : Z) (cl : nat * cell), 0 <= x -> 0 <= y ->
+  exists s, print_cell x y = Some s /\
+    t_step2 t (XSetCell (CStr s) cl) = t_step t (OSetCell x y cl) /\
+    t_step2 t (XInsertCell (CStr s) cl) = t_step t (OInsertCell x y cl) /\
+    t_step2 t (XDeleteCell (CStr s)) = t_step t (ODeleteCell x y).
+Proof. exact printed_cell_steps_like_integers. Qed.
+Print Assumptions C01_written_address_steps_like_integers.
+
+(* ... row numbers "3" and column letters "C" likewise ... *)
+Theorem C01_written_index_steps_like_integers : forall (t : tstate) (x y : Z) (rep : nat) (r : rowx) (st : Z) (cl : nat * cell),
+  0 <= x -> 0 <= y ->
+  exists c, print_col x = Some c /\
+    t_step2 t (XSetRow (AStr (print_row y)) rep r) = t_step t (OSetRow y rep r) /\
+    t_step2 t (XInsertRow (AStr (print_row y)) rep r) = t_step t (OInsertRow y rep r) /\
+    t_step2 t (XDeleteRow (AStr (print_row y))) = t_step t (ODeleteRow y) /\
+    t_step2 t (XAppendCell (AStr (print_row y)) cl) = t_step t (OAppendCell y cl) /\
+    t_step2 t (XInsertColumn (AStr c) rep st) = t_step t (OInsertColumn x rep st) /\
+    t_step2 t (XDeleteColumn (AStr c)) = t_step t (ODeleteColumn x) /\
+    t_step2 t (XSetColumn (AStr c) rep st) = t_step t (OSetColumn x rep st).
+Proof. exact printed_index_steps_like_integers. Qed.
+Print Assumptions C01_written_index_steps_like_integers.
+
+(* ... and a tuple of integers of either sign IS the operation of the first alphabet *)
+Theorem C01_tuple_form_is_first_alphabet : forall (t : tstate) (x y : Z) (cl : nat * cell),
+  t_step2 t (XSetCell (CTup [Some x; Some y]) cl) = t_step t (OSetCell x y cl) /\
+  t_step2 t (XInsertCell (CTup [Some x; Some y]) cl) = t_step t (OInsertCell x y cl) /\
+  t_step2 t (XDeleteCell (CTup [Some x; Some y])) = t_step t (ODeleteCell x y).
+Proof. exact tuple_form_is_first_alphabet. Qed.
+Print Assumptions C01_tuple_form_is_first_alphabet.
+
+(* ==== Row-level calls on a LIVE row handle (get_row(y, clone=False), then row.set/insert/append/delete_cell, not written
+        back; TableLive.v).  All the API can promise: the whole stored RUN holding row y is rewritten, every other
+        row, the column declarations and the height are untouched. ==== *)
+Theorem C01_live_row_handle_rewrites_its_run_only : forall (y : Z) (os : list rop) (t t' : tstate),
+  WF t -> 0 <= y < theight t -> Forall live_ok os -> t_live_row y os t = Some t' ->
+  exists (lo rep : nat), Z.of_nat lo <= y < Z.of_nat (lo + rep) /\ (exists r0, row_at y t = Some (rep, r0)) /\
+    ncols (abs_t t') = ncols (abs_t t) /\ gheight (abs_t t') = gheight (abs_t t) /\
+    forall y', 0 <= y' ->
+      g_row y' (abs_t t') = if (Z.of_nat lo <=? y') && (y' <? Z.of_nat (lo + rep))
+                            then fold_left lstep os (g_row y (abs_t t)) else g_row y' (abs_t t).
+Proof. exact live_row_touches_its_run_only. Qed.
+Print Assumptions C01_live_row_handle_rewrites_its_run_only.
+
+Theorem C01_live_row_handle_on_unrepeated_row : forall (y : Z) (os : list rop) (t t' : tstate) (r0 : rowx),
+  WF t -> 0 <= y < theight t -> Forall live_ok os -> row_at y t = Some (1%nat, r0) -> t_live_row y os t = Some t' ->
+  forall y', 0 <= y' -> g_row y' (abs_t t') = if y' =? y then fold_left lstep os (g_row y (abs_t t)) else g_row y' (abs_t t).
+Proof. exact live_row_unrepeated. Qed.
+Print Assumptions C01_live_row_handle_on_unrepeated_row.
+
+(* written back (table.set_row(y, row) after the Row-level calls), the edit IS the Table-level row edit — inside the
+   plain-grid contract by edit_row_refines — exactly when the handle is a fresh Row beyond the table or the row is
+   stored unrepeated; on a repeated run set_row writes the row with the RUN's repeat at y (not a grid function either) *)
+Theorem C01_live_row_handle_written_back_is_table_edit : forall (y : Z) (os : list rop) (t : tstate),
+  WF t -> 0 <= y -> Forall live_ok os ->
+  (theight t <= y \/ exists r0, row_at y t = Some (1%nat, r0)) -> t_live_row_back y os t = t_edit_row y os t.
+Proof. exact live_row_back_is_table_edit. Qed.
+Print Assumptions C01_live_row_handle_written_back_is_table_edit.
+
+(* refuted: a live-handle edit is NOT a function of the plain grid — two run-length encodings of the same grid answer differently *)
+Theorem C01_live_row_handle_not_a_grid_function_refuted : exists (t1 t2 : tstate) (y : Z) (os : list rop) t1' t2',
+  WF t1 /\ WF t2 /\ abs_t t1 = abs_t t2 /\ Forall live_ok os /\
+  t_live_row y os t1 = Some t1' /\ t_live_row y os t2 = Some t2' /\ abs_t t1' <> abs_t t2'.
+Proof. exact live_row_not_a_grid_function_w. Qed.
+Print Assumptions C01_live_row_handle_not_a_grid_function_refuted.
+
+Example op_ok2_inhabited :      (* set_cell("B2", cell) and delete_column("A") on a 2 x 2 table resolve and are admissible *)
+  op_ok2 2 2 (XSetCell (CStr [66; 50]) (1%nat, (7, 0))) /\ op_ok2 2 2 (XDeleteColumn (AStr [65])).
+Proof. split; eexists; (split; [vm_compute; reflexivity|cbn; auto]). Qed.
 
 (* ---- the hypotheses are inhabited: the empty table; a table with a 3-times repeated row whose middle cells
         are a 2-times repeated run ---- *)
